@@ -18,11 +18,17 @@ REPO = os.environ.get("VERIF_REPO", "/repo")
 def run(m, tier):
     path = os.path.join(REPO, m["file"])
     src = open(path).read()
-    n = src.count(m["old"])
-    want = m.get("count", 1)
-    if n != want:
-        return m, "skipped", f"pattern matches {n}x (want {want})", ""
-    new = src.replace(m["old"], m["new"])
+    if "git_ref" in m:
+        # whole file as it was at another commit (used to re-create a fixed defect exactly)
+        new = subprocess.run(["git", "-C", REPO, "show", m["git_ref"] + ":" + m["file"]], capture_output=True, text=True).stdout
+        if not new or new == src:
+            return m, "skipped", "git_ref content unavailable or identical", ""
+    else:
+        n = src.count(m["old"])
+        want = m.get("count", 1)
+        if n != want:
+            return m, "skipped", f"pattern matches {n}x (want {want})", ""
+        new = src.replace(m["old"], m["new"])
     with tempfile.TemporaryDirectory() as td:
         f = os.path.join(td, os.path.basename(m["file"]))
         open(f, "w").write(new)
